@@ -163,6 +163,8 @@ func (language *Language) CompilerPasses() compiler.Passes {
 		&compiler.EnumMemberIdentifiers{Language: LanguageRef, Identifier: enumMemberIdentifier, EnumIdentifier: enumIdentifier},
 		// fields whose names only differ by their case or their separators (`user_id`, `userId`)
 		&compiler.StructFieldIdentifiers{Language: LanguageRef, Identifier: structFieldIdentifier},
+		// objects whose names only differ by their case or their separators (`pet_kind`, `PetKind`)
+		&compiler.ObjectIdentifiers{Language: LanguageRef, Identifier: enumIdentifier},
 	}
 }
 
